@@ -107,6 +107,11 @@ func repeatBuilds(p prog, n int) {
 			hashes[h]++
 			ev.Count("builds", 1)
 		}
+		if len(hashes) == 1 && !o.Minify && !o.SourceMap && strings.HasSuffix(p.name, "0") {
+			for h := range hashes {
+				ev.Sample(map[string]any{"program": p.name, "files": drv.SortedKeys(p.files), "builds": n, "sha256_prefix_js/map": h})
+			}
+		}
 		if len(hashes) > 1 {
 			if f := findingFor(p, "repeat"); f != nil {
 				ev.Known(f)
